@@ -90,3 +90,10 @@ func VerifMarshalSuper(magic uint32, items []VerifSuperItem, wrap []bool) []byte
 	}
 	return marshalSuperBlob(csMagic(magic), its)
 }
+
+// VerifParseSignature exposes parseSignature (what SignatureParams.DefaultsFromSignature runs on an old signature)
+// to the verification harness: nil iff the blob is accepted.
+func VerifParseSignature(blob []byte) error {
+	_, err := parseSignature(blob)
+	return err
+}
